@@ -504,6 +504,55 @@ fn run_pred_case(rng: &mut Rng, kind: usize) -> Result<Run, String> {
     }
 }
 
+/// one interpreter REUSED for several transactions: state computed by an earlier init (owner
+/// pointer, Output::Contract map, cached offsets) must not survive into the next one.
+/// tx A: a single owner, the contract output first; tx B: two different owners and a coin output
+/// before the contract output; tx C: single owner again, no contract at all.
+fn run_reuse(rng: &mut Rng) -> Vec<Run> {
+    let chain_id = rng.below(1000);
+    let gas_price = rng.below(10);
+    let base_asset = rng.bytes32();
+    let max_inputs = 8u16;
+    let ip = params_for(chain_id, gas_price, base_asset, max_inputs);
+    let tx_offset = ip.tx_offset;
+    let mut vm: Interpreter<MemoryInstance, MemoryStorage, fuel_tx::Script> = Interpreter::with_storage(MemoryInstance::new(), MemoryStorage::default(), ip);
+    let owner_x: [u8; 32] = rng.bytes32();
+    let owner_y: [u8; 32] = rng.bytes32();
+    let pred = |rng: &mut Rng, owner: [u8; 32]| Input::coin_predicate(gen_utxo(rng), owner.into(), rng.below(1000), b32(rng).into(), gen_txptr(rng), 0, { let n = 1 + rng.below(20) as usize; rng.bytes(n) }, rng.bytes_upto(9));
+    let signed = |rng: &mut Rng, owner: [u8; 32]| Input::coin_signed(gen_utxo(rng), owner.into(), rng.below(1000), b32(rng).into(), gen_txptr(rng), 0);
+    let contract = |rng: &mut Rng| Input::contract(gen_utxo(rng), b32(rng).into(), b32(rng).into(), gen_txptr(rng), b32(rng).into());
+    let mk = |rng: &mut Rng, inputs: Vec<Input>, outputs: Vec<Output>| -> fuel_tx::Script {
+        let mut pol = fuel_tx::policies::Policies::new();
+        pol.set(PolicyType::MaxFee, Some(rng.below(1000)));
+        Transaction::script(rng.below(1 << 20), rng.bytes_upto(12), rng.bytes_upto(12), pol, inputs, outputs, vec![rng.bytes_upto(9).into()])
+    };
+    let (i1, i2, i3) = (pred(rng, owner_x), contract(rng), signed(rng, owner_x));
+    let oa = vec![Output::contract(1, b32(rng).into(), b32(rng).into()), Output::coin(b32(rng).into(), 5, b32(rng).into())];
+    let a = mk(rng, vec![i1, i2, i3], oa);
+    let (j1, j2, j3, j4) = (pred(rng, owner_x), signed(rng, owner_y), contract(rng), contract(rng));
+    let ob = vec![Output::coin(b32(rng).into(), 7, b32(rng).into()), Output::contract(3, b32(rng).into(), b32(rng).into()), Output::change(b32(rng).into(), 0, b32(rng).into())];
+    let b = mk(rng, vec![j1, j2, j3, j4], ob);
+    let k1 = pred(rng, owner_y);
+    let oc = vec![Output::variable(b32(rng).into(), 0, b32(rng).into())];
+    let c = mk(rng, vec![k1], oc);
+    let mut runs = vec![];
+    for (n, mut tx) in [a, b, c].into_iter().enumerate() {
+        let precomputed = n != 1 && tx.precompute(&ChainId::new(chain_id)).is_ok();
+        let Some(program) = RuntimePredicate::from_tx(&tx, tx_offset, 0) else { continue };
+        match guarded(|| vm.init_predicate(Context::PredicateVerification { program }, tx.clone(), 10_000_000)) {
+            Ok(Ok(())) => {}
+            _ => continue,
+        }
+        let as_tx: Transaction = tx.clone().into();
+        let prepared: Transaction = vm.transaction().clone().into();
+        let size = prepared.size();
+        let Ok(mem) = vm.memory().read(0usize, tx_offset + size).map(|m| m.to_vec()) else { continue };
+        let obs = observe(&mut vm, true, counts_of(&as_tx));
+        runs.push(Run { kind: 0, raw: as_tx, prepared, precomputed, chain_id, gas_price, base_asset, max_inputs, tx_offset, predicate: Some(0), mem, obs });
+    }
+    runs
+}
+
 fn push_case(out: &mut Out, run: &Run, label: &str) {
     let v = kind_val(&run.raw);
     let ctx = match run.predicate { Some(i) => format!("(CtxPredicateVerification {})", i), None => "CtxScript".into() };
@@ -539,6 +588,15 @@ fn run_all(args: &Args, out: &mut Out) {
                     out.count(&format!("init-failed/{}", if e.contains("Owner") { "owner-policy-invalid" } else { "other" }));
                 }
             }
+        }
+    }
+    // a reused interpreter: owner pointer / contract-output map / cached offsets of an earlier transaction must not leak
+    for i in 0..n_oracle {
+        let runs = run_reuse(&mut rng);
+        if runs.len() != 3 { out.count("init-failed/reuse"); }
+        for (n, run) in runs.iter().enumerate() {
+            oracle(out, run);
+            if i == 0 && !args.oracle_only { push_case(out, run, &format!("reused-vm-{}", n)); } else { out.count("oracle/Script/reused-vm"); }
         }
     }
     let mut pushed = 0;
